@@ -219,14 +219,28 @@ class Evo:
                                max_paths=30000, opaque=heavy, **kw)
         return ex
 
+    def loop_bound_attr(self, fn: FuncInfo, lp: ast.For) -> Optional[str]:
+        """Attribute of self that bounds `for .. in range([0,] self.A)` - directly or through a local that names
+        the attribute for the whole function (levels = self.A)."""
+        it = lp.iter
+        if not (isinstance(it, ast.Call) and isinstance(it.func, ast.Name) and it.func.id == 'range' and
+                1 <= len(it.args) <= 2):
+            return None
+        if len(it.args) == 2 and not (isinstance(it.args[0], ast.Constant) and it.args[0].value == 0):
+            return None
+        a = it.args[-1]
+        if isinstance(a, ast.Attribute) and isinstance(a.value, ast.Name) and a.value.id == fn.param_names[0]:
+            return a.attr
+        if isinstance(a, ast.Name):
+            return self.alias_map(fn).get(a.id)
+        return None
+
     def density_field(self) -> str:
         """Attribute that bounds the level loop of the forward descent."""
         lp = self.level_loop(self.forward)
-        it = lp.iter
-        if isinstance(it, ast.Call) and isinstance(it.func, ast.Name) and it.func.id == 'range' and it.args:
-            a = it.args[-1] if len(it.args) <= 2 else it.args[1]
-            if isinstance(a, ast.Attribute) and isinstance(a.value, ast.Name) and a.value.id == self.forward.param_names[0]:
-                return a.attr
+        a = self.loop_bound_attr(self.forward, lp)
+        if a is not None:
+            return a
         raise AnalysisError(f'{self.forward.short}: level loop is not range(self.<density>)')
 
     @staticmethod
